@@ -66,6 +66,11 @@ def run(repo, rep, tier):
               "loop of letter() runs until the index is used up (while "
               "True ... return)", construct="letter-loop-runs",
               where=L.where(lt))
+    # the loop variable of a nested loop gives the outer binding back
+    # (C05 owns the save / restore brackets)
+    from . import c05 as _c05
+    L.borrow(repo, rep, "R08.2", "C05", _c05.brackets,
+             ("bracket-present", "restore-condition", "marker"), minimum=2)
     L.state_rule(repo, rep)
 
 
